@@ -65,6 +65,8 @@ struct ExecHooks {
     virtual void output_post(void * /*p*/, size_t /*n*/) {}
     virtual void call_pre(const Op &) {}
     virtual void call_post(const Op &, Rec &) {}
+    // every guard-delimited region backing the buffers of the current call (before the windows are opened)
+    virtual void region(void * /*base*/, size_t /*len*/) {}
     // caller-owned object storage
     virtual void object(int /*kind*/, void * /*p*/, size_t /*n*/) {}
     // after the executor has updated its own bookkeeping for the op
@@ -162,7 +164,7 @@ private:
             if (!base) abort();
             memset(base, GUARD_BYTE, off + n ? off + n : 1);
             heap_blocks.push_back(base);
-            if (off + n) regions.push_back(Region{base, off + n});
+            if (off + n) { regions.push_back(Region{base, off + n}); if (o.hooks) o.hooks->region(base, off + n); }
             return base + off;
         }
         size_t need = GUARD + 64 + n + GUARD;
@@ -172,6 +174,7 @@ private:
         memset(base, GUARD_BYTE, need);
         arena_pos += need;
         regions.push_back(Region{base, need});
+        if (o.hooks) o.hooks->region(base, need);
         return base + GUARD + off;
     }
     uint8_t *place_in(int role, const Bytes *b, unsigned off) {
